@@ -76,3 +76,14 @@ Lemma redeem_fallbacks_spec now expire pc pe :
   l_created (redeem_fallbacks now expire pc pe) = match pc with Some c => c | None => now end /\
   l_expires (redeem_fallbacks now expire pc pe) = Some (match pe with Some e => e | None => now + expire end).
 Proof. unfold redeem_fallbacks. destruct pc, pe; auto. Qed.
+
+(* ---- expiry after a provider refresh ---- *)
+Lemma refreshed_session_usable created now d : 0 < d -> usable_after_refresh true created now d = true.
+Proof. intro H. unfold usable_after_refresh, expiry_after_refresh. apply Z.ltb_lt. lia. Qed.
+
+Lemma refreshed_expiry_is_lifetime created now d : expiry_after_refresh true created now d - now = d.
+Proof. unfold expiry_after_refresh. lia. Qed.
+
+(* without the re-stamp, a session at least as old as the new token's lifetime is expired the moment it is refreshed *)
+Lemma unstamped_refresh_expired created now d : created + d <= now -> usable_after_refresh false created now d = false.
+Proof. intro H. unfold usable_after_refresh, expiry_after_refresh. apply Z.ltb_ge. lia. Qed.
